@@ -85,9 +85,15 @@ Definition claim_tx (input : txin) (asset claim_script : bytes) (amount : N) (fe
   let final := (amount + two64 - fee) mod two64 in      (* uint64(amount) - feeValue *)
   mk_tx 2 0 0 [input] [claim_out0 asset claim_script final; claim_out1 asset fee].
 
+(* after fix 858a1b0: a negative amount (uint64(amount) >= 2^63) or a fee above the amount is an error *)
+Definition claim_fee (input : txin) (asset claim_script : bytes) (amount : N) (fee_of : N -> N) : N :=
+  fee_of (vsize (mk_tx 2 0 0 [input] [claim_out0 asset claim_script amount; claim_out1 asset 0])).
+
 Definition claim (asset genesis claim_script proof : bytes) (bv : option btc_view) (fee_of : N -> N) : pegres tx :=
   match create_pegin_input asset genesis claim_script proof bv with
-  | PgOk (input, amount) => PgOk (claim_tx input asset claim_script amount fee_of)
+  | PgOk (input, amount) =>
+      if (0x8000000000000000 <=? amount) || (amount <? claim_fee input asset claim_script amount fee_of)
+      then PgErr else PgOk (claim_tx input asset claim_script amount fee_of)
   | PgErr => PgErr
   | PgPanic => PgPanic
   end.
